@@ -1,6 +1,7 @@
 package main
 
 import (
+	"io"
 	"bufio"
 	"fmt"
 	"strings"
@@ -23,7 +24,13 @@ func main() {
 			fmt.Println("unknown-op")
 			return
 		}
-		fmt.Println(safe(func() string { return ex(os.Args[3:]) }))
+		args := os.Args[3:]
+		if len(args) == 1 && args[0] == "@stdin" {
+			// arguments too long for a command line arrive on standard input, space separated
+			b, _ := io.ReadAll(os.Stdin)
+			args = strings.Split(strings.TrimSpace(string(b)), " ")
+		}
+		fmt.Println(safe(func() string { return ex(args) }))
 	case "racechild":
 		seed, _ := strconv.ParseUint(os.Args[3], 10, 64)
 		g, _ := strconv.Atoi(os.Args[4])
